@@ -1,24 +1,38 @@
 #!/usr/bin/env python3
-"""mkindex.py <matrix.txt>... : build corpus/INDEX.json from the observed variant x check matrix (scripts/matrix.sh)
-and the intent encoded in the variant names. Later matrix files override earlier ones per variant.
-  corpus/Cnn-*.diff      breaking: expected to fire Cnn, plus every other check observed firing (cross detection)
-  corpus/regress-Dk-*    reverse of a fix: expected to fire the properties of REGRESS, plus observed
-  corpus/benign-*        behaviour preserving: expected silent for the properties in BENIGN (default: all that name it)
-  seeded/Cnn-vk/patch.diff  sub-agent change: expected to fire what was observed (own property first)
-Prints anything that contradicts the intent (a miss or an alarm on a benign variant); never edits checks."""
+"""mkindex.py --matrix <file>... [--hist <file>:<corpus-prefix> ...]
+Builds corpus/INDEX.json (read by the thorough-tier corpus stage) from the observed variant x check matrix
+(scripts/matrix.sh output; later files override earlier ones) and the intent encoded in the variant names:
+  corpus/Cnn-*.diff        breaking: fires = Cnn plus every other check observed firing (cross detection)
+  corpus/regress-Dk-*      reverse of a fix: fires = REGRESS[Dk] plus observed
+  corpus/benign-*          behaviour preserving: silent = all twenty checks
+  seeded/Cnn-vk/patch.diff sub-agent change: fires = what was observed
+It also refreshes checks_fired in seeded/*/meta.json. Prints what contradicts the intent; never edits checks."""
 import sys,json,re,os,glob
 V=os.path.dirname(os.path.dirname(os.path.abspath(__file__)))
 REGRESS={'D1':['C03','C04'],'D2':['C03','C05'],'D3':['C03'],'D4':['C04'],'D5':['C06'],'D6':['C16'],'D7':['C12'],'D8':['C14'],'D9':['C17'],'D10':['C03'],'D11':['C18'],'K1':['C03'],'D12':['C13'],'D13':['C08']}
-ALL=['C%02d'%i for i in range(1,21)]
-obs={}
-for mf in sys.argv[1:]:
+def read(mf):
+    o={}
     for l in open(mf):
         l=l.strip()
         if not l: continue
         name,_,rest=l.partition(' ')
-        if name.endswith('/patch.diff') and not name.startswith('seeded/'): name='seeded/'+name
-        if rest.startswith('FIRED:'): obs[name]=rest[6:].split()
-        else: obs[name]=rest  # NOAPPLY / NOBUILD
+        o[name]=rest[6:].split() if rest.startswith('FIRED:') else rest
+    return o
+ALL=['C%02d'%i for i in range(1,21)]
+obs={}; hist={}
+args=sys.argv[1:]; mode=None
+for a in args:
+    if a in('--matrix','--hist'): mode=a; continue
+    if mode=='--matrix':
+        for k,v in read(a).items():
+            if k.endswith('/patch.diff') and not k.startswith('seeded/'): k='seeded/'+k
+            obs[k]=v
+    elif mode=='--hist':
+        f,_,prefix=a.partition(':')
+        for k,v in read(f).items():
+            m=re.match(r'(C\d\d)/(v\d)/patch.diff',k)
+            if m and isinstance(v,list):
+                hist.setdefault('corpus/%s-%s-%s.diff'%(prefix,m.group(1),m.group(2)),set()).update(v)
 idx=[]; problems=[]
 def entry(file,kind,fires,silent): idx.append({'file':file,'kind':kind,'fires':sorted(set(fires)),'silent':sorted(set(silent))})
 for f in sorted(glob.glob(V+'/corpus/*.diff')):
@@ -27,7 +41,9 @@ for f in sorted(glob.glob(V+'/corpus/*.diff')):
     if o is None: problems.append('%s: not in matrix'%key); o=[]
     if b.startswith('benign-'):
         if o: problems.append('%s: ALARM from %s'%(key,o))
-        entry(key,'benign',[],ALL)
+        m=re.search(r'(C\d\d)',b)
+        silent=ALL  # every check must stay quiet on every behaviour-preserving variant (own property: m, past false alarms: hist)
+        entry(key,'benign',[],silent)
     elif b.startswith('regress-'):
         d=b.split('-')[1]; want=REGRESS[d]
         for w in want:
@@ -39,18 +55,26 @@ for f in sorted(glob.glob(V+'/corpus/*.diff')):
         entry(key,'breaking',set([own])|set(o),[])
 for f in sorted(glob.glob(V+'/seeded/*/patch.diff')):
     name=os.path.basename(os.path.dirname(f)); key='seeded/%s/patch.diff'%name; o=obs.get(key)
-    if isinstance(o,str): problems.append('%s: %s'%(key,o)); continue
+    mp=os.path.join(os.path.dirname(f),'meta.json')
+    if isinstance(o,str):
+        problems.append('%s: %s'%(key,o))
+        try:
+            m=json.load(open(mp)); m['applies_to_current_tree']=False
+            m.setdefault('stale_note','made for an earlier /repo HEAD; the code it patches was rewritten by a later fix: commit (see DESIGN.md §12), so it no longer applies; checks_fired records what fired when it was confirmed')
+            json.dump(m,open(mp,'w'),indent=1)
+        except Exception as e: problems.append('%s: meta.json: %s'%(key,e))
+        entry(key,'seeded',[],[]); continue
     if o is None: problems.append('%s: not in matrix'%key); o=[]
     own=name[:3]
-    if own not in o: problems.append('%s: %s MISSED (fired: %s)'%(key,own,o))
+    if own not in o: problems.append('%s: %s silent (fired: %s)'%(key,own,o))
     entry(key,'seeded',o,[])
-    mp=os.path.join(os.path.dirname(f),'meta.json')
     try:
         m=json.load(open(mp))
-        if key in obs and m.get('checks_fired')!=o:
+        if m.get('checks_fired')!=o:
             m['checks_fired']=o
             if own in o: m.pop('verifier_note',None)
-            json.dump(m,open(mp,'w'),indent=1)
+        m['applies_to_current_tree']=True
+        json.dump(m,open(mp,'w'),indent=1)
     except Exception as e: problems.append('%s: meta.json: %s'%(key,e))
 json.dump(idx,open(V+'/corpus/INDEX.json','w'),indent=1)
 print(len(idx),'entries'); print('\n'.join(problems))
